@@ -169,7 +169,8 @@ func newReport() *childReport {
 
 func (c *childReport) violation(sig, what string, witness any) {
 	c.mu.Lock()
-	if len(c.Violations) < 50 {
+	c.Events["violation:"+sig]++
+	if c.Events["violation:"+sig] <= 2 && len(c.Violations) < 400 { // keep two witnesses per signature
 		c.Violations = append(c.Violations, vrec{sig, what, witness})
 	}
 	c.mu.Unlock()
